@@ -1,6 +1,6 @@
 (* copied to coq/gen/ on every run; evaluates the generated register model against the frozen spec *)
 From Coq Require Import NArith List String.
-From CSS Require Import Lib.SymBits Lib.RegTypes Lib.RegOblig Lib.RegFresh Spec.RegisterSpec gen.FromSource_registers.
+From CSS Require Import Lib.SymBits Lib.RegTypes Lib.RegOblig Lib.RegFresh Spec.RegisterSpec Model.Registers Model.RegistersDec gen.FromSource_registers.
 Import ListNotations.
 Open Scope N_scope.
 
@@ -12,6 +12,11 @@ Definition results : list result :=
   ++ map (fun n => (("untranslated:" ++ n)%string, false, None)) untranslated
   ++ map (oblig_fresh spec_stateless spec_fresh alloc_fns) spec_fresh
   ++ map (fun n => (("fresh-unspecified:" ++ n)%string, false, None)) (unlisted_fresh spec_fresh alloc_fns)
+  (* the two TXT decoders decode the same field: same specified slice, both accessors green, slot and
+     register start at the same byte (Model/RegistersDec.v; soundness: C04_decoder_pair_sound) *)
+  ++ map (oblig_pair spec_accessors accessors) decoder_pairs
+  ++ map (oblig_raw_pair spec_accessors accessors) raw_pairs
+  ++ [("tables-of-types-in-layout-order"%string, types_in_layout_order, None)]
   ++ [("tables-count"%string, Nat.eqb (List.length tables) (List.length spec_tables), None)].
 Definition R := Eval vm_compute in results.
 Print R.
